@@ -50,13 +50,16 @@ PROPS["C11"] = {
     "rule": ("Generated: all ordered pairs of strings of length 0..=5 over {a,b,/,.} (exhaustive, 1.86M pairs per "
              "profile) through find/find_buf/match_up_to/match_up_to_str/ends_with/path_join/path_join_fmt, all strings "
              "of length 0..=7 through parent_path/path_file_name (exhaustive), random strings to 2 KiB with planted "
-             "matches (middle, very end, near-miss). Operands end at a PROT_NONE page so reads past an argument fault. "
+             "matches (middle, very end, near-miss), operand pairs built around a common prefix of every length 0..=130 "
+             "(exhaustive with 16 tail pairs; generated with random content and tails: equal operands, one a proper "
+             "prefix of the other, a difference right at the seam). Operands end at a PROT_NONE page so reads past an argument fault. "
              "Oracle: naive byte-string references. Non-trivial = needle non-empty and not longer than the haystack, or "
              "a path with a separator; distinct by hash of the serialised case."),
     "assumptions": ["x86_64 only",
                     "parent_path of a path with a trailing separator / with a double slash away from the split point, and "
                     "path_file_name of a path without separator, are documented ambiguously: every documented reading is accepted"],
-    "required_classes": ["pair-exh:match-at-very-end", "pair-exh:empty-needle", "pair-exh:needle-longer", "pair-rand:match-at-very-end", "path-exh:parent-is-root"],
+    "required_classes": ["pair-exh:match-at-very-end", "pair-exh:empty-needle", "pair-exh:needle-longer", "pair-rand:match-at-very-end", "path-exh:parent-is-root",
+                         "pair-prefix:equal-operands-of-7-bytes-or-more", "pair-prefix:common-prefix-of-8-bytes-or-more", "prefix-exh:equal-operands-of-7-bytes-or-more"],
 }
 
 
